@@ -219,6 +219,9 @@ TRACE_FNS = {
     "stack3_add": (("x", "y"), lambda ops, x, y: ops.add(ops.stack((x, y, x), 0), 1.0)),
     "cat": (("x", "y"), lambda ops, x, y: ops.cat((x, ops.neg(y)), 0)),
     "einsum": (("m", "w"), lambda ops, m, w: ops.einsum((m, w), "ab,bc->ac")),
+    # the tuple itself is the input of the traced function (the documented spelling for finitary ops)
+    "tuple_input_stack": (("parts:x,y",), lambda ops, parts: ops.mul(ops.exp(ops.stack(parts, 0)), 2.0)),
+    "tuple_input_cat_mixed": (("parts:x,y", "x"), lambda ops, parts, x: ops.add(ops.cat(parts, 0), ops.cat((x, x), 0))),
 }
 
 
@@ -234,8 +237,16 @@ def tracefn_worker(inst):
         import funsor.ops as ops
         from funsor.ops.tracer import trace_function
         from symx.symarray import as_obj
-        run = OrderedDict((k, mk.array("in_" + k, tuple(VARS[k][1]), "real")) for k in argnames)
-        tr = OrderedDict((k, mk.array("tr_" + k, tuple(VARS[k][1]), "real")) for k in argnames)
+        def arrays(prefix):
+            d = OrderedDict()
+            for k in argnames:
+                if ":" in k:        # a tuple-valued input
+                    nm, elts = k.split(":")
+                    d[nm] = tuple(mk.array("%s_%s_%s" % (prefix, nm, e), tuple(VARS[e][1]), "real") for e in elts.split(","))
+                else:
+                    d[k] = mk.array("%s_%s" % (prefix, k), tuple(VARS[k][1]), "real")
+            return d
+        run, tr = arrays("in"), arrays("tr")
         try:
             program = trace_function(lambda **kw: f(ops, **kw), dict(tr), allow_constants=allow)
         except (KeyError, ValueError, AssertionError) as e:
